@@ -4,11 +4,11 @@ CONSTANTS
   InitHeaps <- MCInit2
   MaxDepth = 1
   Breaks <- BreaksQ
-  Degs <- DegsQ
-  MaxNpts = 5
-  Acts = {"CvSplit"}
-  PtKinds = {"gen"}
-  WtKinds = {"none", "gen"}
+  Degs <- DegsT
+  MaxNpts = 6
+  Acts = {"CvDegreeIncrease"}
+  PtKinds = {"gen", "unit"}
+  WtKinds = {"none", "gen", "gen2"}
   ExtraNodes <- Extra0
   NodeSize = 2
   Scenario = "single"
@@ -17,7 +17,7 @@ CONSTANTS
   OtherMaxNpts = 4
 INVARIANT WellFormed
 PROPERTY FailedIsNoOp
-PROPERTY SplitRestricts
+PROPERTY ElevatePreserves
 ACTION_CONSTRAINT Log
 VIEW View
 CHECK_DEADLOCK FALSE
